@@ -48,8 +48,10 @@ static BEVW_NOSAN long find_mismatch(const uint8_t *b, int d, uint64_t base, siz
 static inline BEVW_NOSAN uint8_t xkey(int d, int layer, uint64_t off) { return (uint8_t)(off * 131 + (off >> 8) * 7 + d * 17 + layer * 29 + 7); }
 
 static BEVW_NOSAN void xor_buf(uint8_t *t, int d, int layer, uint64_t off, int n) { for (int i = 0; i < n; i++) t[i] ^= xkey(d, layer, off + i); }
-struct FiltCtx { int kind = F_ID; int K = 1; int layer = 0; int d_out = 0, d_in = 0; uint64_t in_off = 0, out_off = 0; uint64_t calls = 0, need_more = 0; int busy[2] = {0, 0}; uint64_t moved[2] = {0, 0}; size_t inflight[2] = {0, 0}, len0[2] = {0, 0}; };
-struct Layer { struct bufferevent *bev = nullptr; bool is_filter = false; FiltCtx ctx; int opts = 0; };
+struct FiltCtx { int kind = F_ID; int K = 1; int cap = 0 /* >0: a record filter, moves at most `cap` bytes per call (C18 only) */; int layer = 0; int d_out = 0, d_in = 0; uint64_t in_off = 0, out_off = 0; uint64_t calls = 0, need_more = 0; int busy[2] = {0, 0}; uint64_t moved[2] = {0, 0}; size_t inflight[2] = {0, 0}, len0[2] = {0, 0}; };
+struct Layer { struct bufferevent *bev = nullptr; bool is_filter = false; FiltCtx ctx; int opts = 0;
+  size_t uw_high = 0; size_t prev_uout = 0; };   // model of the high WRITE watermark the application set on this layer while a filter sits on it; its output length at the last observation
+
 
 struct End {
   int id = 0;
@@ -87,7 +89,8 @@ struct World {
   int listener = -1; struct sockaddr_un lsa; socklen_t lsalen = 0;
   // classes / non-trivial evidence
   int n_writes = 0, n_toggles = 0, n_flush = 0, n_turns = 0; bool in_cb_free = false, in_cb_setcb = false, saw_short = false;
-  bool big = false;
+  bool big = false; int n_aimed = 0;
+  bool any_cap = false, uw_limited = false, uw_partial = false;   // a record (per-call capped) filter exists; an output filter call was cut by the underlying's high write watermark; ... to less than one record
   std::vector<struct bufferevent *> graveyard;   // lower layers to free after their top
 };
 
@@ -121,6 +124,8 @@ static enum bufferevent_filter_result run_filter(struct evbuffer *src, struct ev
   c->calls++;
   size_t len = evbuffer_get_length(src), avail = len;
   if (c->kind == F_RECHUNK && mode == BEV_NORMAL) avail -= avail % (size_t)c->K;
+  if (c->cap && avail > (size_t)c->cap) avail = (size_t)c->cap;      // record filter: one bounded record per call, BEV_OK, the library has to call again
+  size_t unlimited = avail;
   if (limit >= 0 && (size_t)limit < avail) avail = (size_t)limit;
   TR("%*sfilter[%s kind=%d layer=%d d=%d] src=%zu limit=%lld mode=%d -> move %zu", (W ? W->cb_depth : 0) * 4 + 6, "", input ? "in" : "out", c->kind, c->layer, c->d_out, len, (long long)limit, (int)mode, avail);
   if (!avail) { c->need_more++; return BEV_NEED_MORE; }
@@ -132,6 +137,17 @@ static enum bufferevent_filter_result run_filter(struct evbuffer *src, struct ev
     // called again from a callback that fired inside our own evbuffer call on the same buffers: "nothing to give right now"
     if (c->kind != F_XOR) verif_known_skipped(KEY_REENTRY);
     TR("%*s  (re-entered: NEED_MORE)", (W ? W->cb_depth : 0) * 4 + 6, ""); return BEV_NEED_MORE; }
+  if (!input && W && M18() && mode == BEV_NORMAL) {
+    // "a filter never writes past its underlying high write watermark in normal mode": this filter honours `limit`, so what it is
+    // about to add fits under the mark iff the library told it the room that is left NOW (bufferevent.h: ignoring the limit "will
+    // overflow the high-water mark associated with dst"; -1 = no limit)
+    End &fe = W->e[c->d_out]; size_t H = fe.live ? fe.L[c->layer].uw_high : 0, pre = evbuffer_get_length(dst);
+    if (H) {
+      CHECK(pre + avail <= H, "C18/filter-output-above-high", "end %c layer %d: output filter called in BEV_NORMAL mode with limit=%lld while the underlying bufferevent's output holds %zu byte(s) and its high write watermark is %zu: the %zu byte(s) the filter may write take the underlying output past the mark (to %zu)",
+            'A' + fe.id, c->layer + 1, (long long)limit, pre, H, avail, pre + avail);
+      if (avail < unlimited) { W->uw_limited = true; if (c->cap && unlimited <= (size_t)c->cap && avail < (size_t)c->cap) W->uw_partial = true; }
+    }
+  }
   if (c->kind == F_XOR) {
     static uint8_t tmp[2][16384]; uint8_t *t = tmp[di];
     uint64_t &off = input ? c->in_off : c->out_off; int d = input ? c->d_in : c->d_out; size_t moved = 0;
@@ -199,6 +215,12 @@ static void observe(End &e, const char *when, bool end_of_op = false) {
     if (e.wm_susp_seen && !model_susp && in_total(e) > e.total_at_susp) e.wm_resume_seen = true;
     // write callback owed when the output buffer dropped to <= low since the last observation
     if (e.cb_w && e.prev_out > e.wlow && out <= e.wlow) e.w_owed = true;
+    // the output of a bufferevent under a filter never GROWS past its non-zero high write watermark (only the filter above writes to it;
+    // it may sit above the mark after the application lowered it, and FLUSH/FINISHED flushes are not bound by it)
+    for (int k = 0; k + 1 < e.nl; k++) { Layer &u = e.L[k]; size_t uo = outlen(u.bev);
+      if (u.uw_high && uo > u.uw_high && uo > u.prev_uout && !e.hi_excuse)
+        VERIF_FAIL("C18/filter-output-above-high", "%s: end %c layer %d (under a filter): output length %zu grew past its high write watermark %zu (was %zu) without a FLUSH/FINISHED flush", when, 'A' + e.id, k, uo, u.uw_high, u.prev_uout);
+      u.prev_uout = uo; }
   }
   if (M19() && e.rd_done && (e.n_eof_r || W->kind == K_PAIR) && !(e.nl > 1 && verif_known("C19/data-after-eof-filter")))
     CHECK(in_total(e) <= e.total_at_eof + rechunk_slack(e), e.nl > 1 ? "C19/data-after-eof-filter" : "C19/data-after-eof", "%s: end %c obtained %llu more byte(s) after EOF was reported for reading", when, 'A' + e.id, (unsigned long long)(in_total(e) - e.total_at_eof));
@@ -462,16 +484,16 @@ static int draw_opts(Src &s, bool allow_ts) {
   if (allow_ts && s.chance(1, 4)) { o |= BEV_OPT_THREADSAFE; if ((o & BEV_OPT_DEFER_CALLBACKS) && s.flag()) o |= BEV_OPT_UNLOCK_CALLBACKS; }
   return o;
 }
-static void add_filters(End &e, Src &s, const int *kinds, const int *Ks, int nf) {
+static void add_filters(End &e, Src &s, const int *kinds, const int *Ks, const int *caps, int nf) {
   for (int i = 0; i < nf; i++) {
-    Layer &l = e.L[e.nl]; l.is_filter = true; l.ctx = FiltCtx(); l.ctx.kind = kinds[i]; l.ctx.K = Ks[i]; l.ctx.layer = i; l.ctx.d_out = e.id; l.ctx.d_in = 1 - e.id;
+    Layer &l = e.L[e.nl]; l.is_filter = true; l.ctx = FiltCtx(); l.ctx.kind = kinds[i]; l.ctx.K = Ks[i]; l.ctx.cap = caps[i]; l.ctx.layer = i; l.ctx.d_out = e.id; l.ctx.d_in = 1 - e.id;
     l.opts = (s.flag() ? BEV_OPT_DEFER_CALLBACKS : 0) | (e.opts & BEV_OPT_CLOSE_ON_FREE);
     struct bufferevent *under = e.L[e.nl - 1].bev;
     l.bev = kinds[i] == F_NULL ? bufferevent_filter_new(under, nullptr, nullptr, l.opts, nullptr, nullptr)
                                : bufferevent_filter_new(under, filt_in, filt_out, l.opts, nullptr, &l.ctx);
     CHECK(l.bev != nullptr, K("filter-new-failed"), "bufferevent_filter_new returned NULL");
     e.nl++;
-    TR("  %c layer %d: filter kind=%d K=%d opts=0x%x", 'A' + e.id, e.nl - 1, kinds[i], Ks[i], l.opts);
+    TR("  %c layer %d: filter kind=%d K=%d%s opts=0x%x", 'A' + e.id, e.nl - 1, kinds[i], Ks[i], caps[i] ? " (record filter: <= K bytes per call)" : "", l.opts);
   }
 }
 
@@ -551,7 +573,7 @@ static void settle() {
   for (int i = 0; i < 2; i++) { End &e = W->e[i]; if (!e.live) continue;
     set_cbs(e, true, true, true);
     do_setwatermark(e, EV_READ | EV_WRITE, 0, 0, "settle");
-    for (int k = 0; k + 1 < e.nl; k++) bufferevent_setwatermark(e.L[k].bev, EV_WRITE, 0, 0);
+    for (int k = 0; k + 1 < e.nl; k++) { bufferevent_setwatermark(e.L[k].bev, EV_WRITE, 0, 0); e.L[k].uw_high = 0; }
     do_enable(e, EV_READ | EV_WRITE, "settle"); }
   post_op("settle setup");
   uint64_t last = ~0ull; int idle = 0;
@@ -595,8 +617,13 @@ static int run_case(const uint8_t *data, size_t size, int prop) {
   w.nfilt = NF[s.below(6)];
   int cm = CM_NONE;
   if (prop == 19 && w.kind == K_SOCK && s.chance(1, 2)) { cm = 1 + s.below(3); w.nfilt = 0; }
-  int kinds[2] = {0, 0}, Ks[2] = {1, 1}; bool any_xor = false;
-  for (int i = 0; i < w.nfilt; i++) { kinds[i] = s.below(4); Ks[i] = 2 + s.below(63); if (kinds[i] == F_XOR) any_xor = true; }
+  int kinds[2] = {0, 0}, Ks[2] = {1, 1}, caps[2] = {0, 0}; bool any_xor = false;
+  for (int i = 0; i < w.nfilt; i++) {
+    // C18: the same input byte also decides (values 12..15 of byte%16; byte%4 stays the kind, so older inputs decode as before) whether an
+    // identity / XOR filter is a RECORD filter: at most K bytes per call, BEV_OK after each record, so the library must call it repeatedly
+    if (prop == 18) { uint32_t v = s.below(16); kinds[i] = (int)(v % 4); Ks[i] = 2 + s.below(63); if (v >= 12 && (kinds[i] == F_ID || kinds[i] == F_XOR)) { caps[i] = Ks[i]; w.any_cap = true; } }
+    else { kinds[i] = s.below(4); Ks[i] = 2 + s.below(63); }
+    if (kinds[i] == F_XOR) any_xor = true; }
   if (w.nfilt == 2 && kinds[1] == F_NULL && reentry_guard()) { kinds[1] = F_ID; if (M17()) verif_known_skipped(KEY_REENTRY); }
   w.asym = w.nfilt && !any_xor && s.below(4) == 3;
   bool ts = s.below(4) == 3;
@@ -627,7 +654,7 @@ static int run_case(const uint8_t *data, size_t size, int prop) {
     for (int i = 0; i < 2; i++) { End &e = w.e[i]; e.L[0].bev = pr[i]; e.nl = 1; e.live = true; e.opts = (e.opts & BEV_OPT_CLOSE_ON_FREE) | o; }
     CHECK(bufferevent_pair_get_partner(pr[0]) == pr[1] && bufferevent_pair_get_partner(pr[1]) == pr[0], K("pair-partner"), "pair partners not linked");
   }
-  for (int i = 0; i < 2; i++) { End &e = w.e[i]; if (!e.live) continue; if (i == 1 && w.asym) continue; add_filters(e, s, kinds, Ks, w.nfilt); }
+  for (int i = 0; i < 2; i++) { End &e = w.e[i]; if (!e.live) continue; if (i == 1 && w.asym) continue; add_filters(e, s, kinds, Ks, caps, w.nfilt); }
   for (int i = 0; i < 2; i++) { End &e = w.e[i]; if (!e.live) continue;
     set_cbs(e, true, true, true);
     if (s.below(4) != 3) do_enable(e, EV_READ, "init"); }
@@ -643,9 +670,9 @@ static int run_case(const uint8_t *data, size_t size, int prop) {
     if (op == 0) break;
     End &e = w.e[s.below(2)];
     // op table: weights differ per property
-    enum { O_WRITE, O_TURN, O_READ, O_ENABLE, O_DISABLE, O_WM, O_FLUSH, O_SHUT, O_FREE, O_FAULT, O_SETCB, O_CONNECT, O_UWM, O_CLRFAULT };
+    enum { O_WRITE, O_TURN, O_READ, O_ENABLE, O_DISABLE, O_WM, O_FLUSH, O_SHUT, O_FREE, O_FAULT, O_SETCB, O_CONNECT, O_UWM, O_CLRFAULT, O_WAIM, O_RAIM };
     static const uint8_t T17[NOP] = {0, O_WRITE, O_WRITE, O_WRITE, O_WRITE, O_WRITE, O_WRITE, O_WRITE, O_TURN, O_TURN, O_TURN, O_TURN, O_TURN, O_TURN, O_READ, O_READ, O_READ, O_ENABLE, O_ENABLE, O_DISABLE, O_DISABLE, O_WM, O_FLUSH, O_FLUSH, O_SHUT, O_FREE, O_FAULT, O_FAULT, O_FAULT, O_SETCB, O_CLRFAULT, O_UWM};
-    static const uint8_t T18[NOP] = {0, O_WRITE, O_WRITE, O_WRITE, O_WRITE, O_WRITE, O_WRITE, O_TURN, O_TURN, O_TURN, O_TURN, O_TURN, O_TURN, O_READ, O_READ, O_READ, O_READ, O_READ, O_ENABLE, O_ENABLE, O_DISABLE, O_WM, O_WM, O_WM, O_WM, O_WM, O_FLUSH, O_UWM, O_UWM, O_SHUT, O_FREE, O_FAULT};
+    static const uint8_t T18[NOP] = {0, O_WAIM, O_WRITE, O_WRITE, O_WRITE, O_WRITE, O_WRITE, O_TURN, O_TURN, O_TURN, O_TURN, O_TURN, O_TURN, O_RAIM, O_READ, O_READ, O_READ, O_READ, O_ENABLE, O_ENABLE, O_DISABLE, O_WM, O_WM, O_WM, O_WM, O_WM, O_FLUSH, O_UWM, O_UWM, O_SHUT, O_FREE, O_FAULT};
     static const uint8_t T19[NOP] = {0, O_WRITE, O_WRITE, O_WRITE, O_WRITE, O_WRITE, O_TURN, O_TURN, O_TURN, O_TURN, O_TURN, O_TURN, O_READ, O_READ, O_ENABLE, O_ENABLE, O_DISABLE, O_WM, O_FLUSH, O_SHUT, O_SHUT, O_FREE, O_FREE, O_FAULT, O_FAULT, O_SETCB, O_SETCB, O_SETCB, O_CONNECT, O_CONNECT, O_CONNECT, O_CONNECT};
     int o = force_connect ? (int)O_CONNECT : (prop == 17 ? T17 : prop == 18 ? T18 : T19)[op];
     if (o == O_TURN) { do_turn(s.below(3) == 1 ? EVLOOP_ONCE : EVLOOP_NONBLOCK, "op"); post_op("turn"); continue; }
@@ -671,14 +698,35 @@ static int run_case(const uint8_t *data, size_t size, int prop) {
     }
     if (!e.live) continue;
     switch (o) {
-      case O_WRITE: if (!e.shut_wr && !e.fin_w) app_write(e, draw_size(s), "op"); break;
+      case O_WRITE: if (!e.shut_wr && !e.fin_w) { size_t n = draw_size(s); if (w.any_cap && n > 16384) n = 16384;   /* a record filter is called once per <= K bytes: bound the work */ app_write(e, n, "op"); } break;
+      case O_WAIM: if (!e.shut_wr && !e.fin_w) {
+        // boundary-aimed write (C18): size chosen so that, once the stage below has taken what it has room for, the output is left at
+        // low-1 / low / low+1 bytes around the low WRITE watermark.  Room: under a filter = the underlying's high write watermark minus its
+        // output; direct pair = the partner's high read watermark minus its input; socket = a scripted short writev of that many bytes
+        size_t room = 0; int d = (int)s.below(3) - 1;
+        if (e.nl > 1) { Layer &u = e.L[e.nl - 2]; size_t uo = outlen(u.bev); room = u.uw_high > uo ? u.uw_high - uo : 0; }
+        else if (w.kind == K_PAIR) { End &p = peer(e); if (p.live && p.nl == 1) { size_t pi = inlen(top(p)); room = p.rhigh > pi ? p.rhigh - pi : 0; } }
+        else if (e.fd >= 0) { static const long SH[] = {1, 2, 100, 4096}; room = (size_t)SH[s.below(4)]; sim_script(SYS_WRITEV, e.fd, ACT_SHORT, (long)room); w.faults_armed = w.any_fault = true; TR("op: fault on %c writev short %zu", 'A' + e.id, room); }
+        size_t cur = outlen(top(e)); long long n = (long long)e.wlow + d + (long long)room - (long long)cur;
+        if (n < 1) n = 1; if (n > 65536) n = 65536; if (w.any_cap && n > 16384) n = 16384;
+        w.n_aimed++; app_write(e, (size_t)n, "op(aimed)"); } break;
+      case O_RAIM: {
+        // boundary-aimed read (C18): leave high-1 / high / high+1 or low-1 / low / low+1 bytes around the READ watermarks in the input, or (direct
+        // pair, partner's output waiting) read just enough that the partner's output drops to low-1 / low / low+1 around its low WRITE watermark
+        size_t have = inlen(top(e)); int d = (int)s.below(3) - 1; int how = s.below(3); long long n = -1; End &p = peer(e);
+        if (how == 2 && w.kind == K_PAIR && e.nl == 1 && p.live && p.nl == 1 && outlen(top(p)) > p.wlow) n = (long long)outlen(top(p)) - (long long)p.wlow - d;
+        else if (how >= 1 && e.rhigh) n = (long long)have - (long long)e.rhigh - d;
+        else n = (long long)have - (long long)e.rlow - d;
+        if (n >= 1 && (size_t)n <= have) { w.n_aimed++; app_read(e, (size_t)n, "op(aimed)"); } break; }
       case O_READ: { int m = s.below(3); app_read(e, m == 0 ? (size_t)-1 : m == 1 ? 1 + s.below(64) : draw_size(s), "op"); break; }
       case O_ENABLE: do_enable(e, (short)(s.below(3) == 0 ? EV_READ : s.below(2) ? EV_WRITE : EV_READ | EV_WRITE), "op"); break;
       case O_DISABLE: do_disable(e, (short)(s.below(3) == 0 ? EV_READ : s.below(2) ? EV_WRITE : EV_READ | EV_WRITE), "op"); break;
       case O_WM: { int which = s.below(4); short ev = which == 3 ? EV_WRITE : which == 2 ? (EV_READ | EV_WRITE) : EV_READ;
         size_t lo = draw_mark(s), hi = draw_mark(s); int rel = s.below(4); if (rel == 1) hi = lo; else if (rel == 2 && hi > lo) { size_t t = lo; lo = hi; hi = t; }
         do_setwatermark(e, ev, lo, hi, "op"); break; }
-      case O_UWM: if (e.nl > 1) { size_t lo = draw_mark(s), hi = draw_mark(s); if (hi && hi < 64) hi = 64;   /* a tiny mark under megabytes of output is legal but takes minutes */ TR("op: %c underlying setwatermark(W, %zu, %zu)", 'A' + e.id, lo, hi); bufferevent_setwatermark(e.L[e.nl - 2].bev, EV_WRITE, lo, hi); } break;
+      case O_UWM: if (e.nl > 1) { size_t lo = draw_mark(s), hi = draw_mark(s); if (hi && hi < 64) hi = 64;   /* a tiny mark under megabytes of output is legal but takes minutes */
+        int k = e.nl - 2; if (M18() && e.nl > 2) k = (int)s.below((uint32_t)e.nl - 1);   // C18: any layer that has a filter on top of it
+        TR("op: %c underlying(layer %d) setwatermark(W, %zu, %zu) output=%zu", 'A' + e.id, k, lo, hi, outlen(e.L[k].bev)); bufferevent_setwatermark(e.L[k].bev, EV_WRITE, lo, hi); e.L[k].uw_high = hi; e.L[k].prev_uout = outlen(e.L[k].bev); } break;
       case O_FLUSH: { short io = (short)(1 + s.below(3)); io = (short)(((io & 1) ? EV_READ : 0) | ((io & 2) ? EV_WRITE : 0)); int mode = s.below(3);
         if (e.nl > 2) io = EV_WRITE;   // code-derived corner: flush(EV_READ) on stacked filters strands data in the middle layer (one layer per call, no read callback)
         if (mode == BEV_FINISHED && w.kind == K_PAIR) { if (((io & EV_WRITE) && e.fin_w) || ((io & EV_READ) && e.fin_r) || peer(e).rd_done || peer(e).wr_done) mode = BEV_FLUSH; }
@@ -749,12 +797,13 @@ static int run_case(const uint8_t *data, size_t size, int prop) {
   if (w.cap_hit) verif_class("pass_cap_hit");
   if (w.e[0].n_eof_r + w.e[1].n_eof_r) verif_class("eof_seen"); if (w.e[0].n_err_r + w.e[1].n_err_r + w.e[0].n_err_w + w.e[1].n_err_w) verif_class("error_seen");
   if (w.e[0].wm_susp_seen || w.e[1].wm_susp_seen) verif_class("wm_suspended"); if (w.e[0].wm_resume_seen || w.e[1].wm_resume_seen) verif_class("wm_resumed");
+  if (w.n_aimed) verif_class("aimed_rw"); if (w.any_cap) verif_class("f_record"); if (w.uw_limited) verif_class("uw_limited"); if (w.uw_partial) verif_class("uw_partial_record");
   if (w.in_cb_free) verif_class("free_in_callback"); if (w.in_cb_setcb) verif_class("setcb_in_callback");
   if (w.e[0].n_conn) verif_class("connected"); if (w.e[0].connect_failed) verif_class("connect_failed");
   if ((w.e[0].opts | w.e[1].opts) & BEV_OPT_THREADSAFE) verif_class("threadsafe"); if ((w.e[0].opts | w.e[1].opts) & BEV_OPT_DEFER_CALLBACKS) verif_class("deferred");
   int nontrivial = 0;
   if (prop == 17) nontrivial = delivered && w.n_writes > 1 && (w.n_toggles > 2 || w.n_flush) && total > 4096;
-  else if (prop == 18) nontrivial = w.e[0].wm_resume_seen || w.e[1].wm_resume_seen;
+  else if (prop == 18) nontrivial = w.e[0].wm_resume_seen || w.e[1].wm_resume_seen || w.uw_limited;
   else nontrivial = w.in_cb_free || w.in_cb_setcb || w.e[0].connect_failed;
   verif_case_end(nontrivial, s.h);
   W = nullptr;
